@@ -125,7 +125,7 @@ def x5 : CSys 2 := { x4 with applied := updN x4.applied 0 (x4.applied 0 + 1) }
 def x6 : CSys 2 := { x5 with applied := updN x5.applied 0 (x5.applied 0 + 1) }
 
 local macro "xsimp" : tactic =>
-  `(tactic| simp [x6, x5, x4, x3, x2, x1, cinit, init, cBecomeLeader, cPropose, cAdvanceCommit, gate, isConfData, ccOf, doTimeout,
+  `(tactic| simp [x6, x5, x4, x3, x2, x1, cinit, init, cBecomeLeader, cPropose, cAdvanceCommit, gate, gateB, isConfData, ccOf, doTimeout,
       doBecomeLeader, doClientReq, doAdvanceCommit, upd, updN, termAt, cfg, cfgAt, applyEntry])
 
 theorem x3_log : (x3.base.nodes 0).log = [⟨1, 0⟩, ⟨1, 9⟩] := by xsimp
@@ -164,6 +164,32 @@ example : ∃ s : CSys 2, CReach c1 s ∧ (s.base.nodes 0).role = .leader ∧ (c
     in `x6` (applied) it is accepted -/
 theorem gate_refuses : gate x3 0 13 = 0 ∧ gate x6 0 13 = 13 := by
   constructor <;> xsimp
+
+/-- the conf-change bits of the entries in `(applied, commit]` of node `i` — what an `HP` line of the lock-step trace carries -/
+def pendingFlags (s : CSys N) (i : Fin N) : List Bool :=
+  (List.range ((s.base.nodes i).commit - s.applied i)).map fun d => confAt (s.base.nodes i).log (s.applied i + d + 1)
+
+/-- `RSC.campaignGate` (the function the lock-step driver compares with `RawNode.Campaign()`) is exactly the guard of the model's `timeout` step -/
+theorem campaignGate_iff (c0 : RQJ.Config) (s : CSys N) (i : Fin N) :
+    campaignGate (decide ((s.base.nodes i).role = .leader)) (nid i) (cfg c0 s i) (pendingFlags s i) = true ↔
+    ((s.base.nodes i).role ≠ .leader ∧ nid i ∈ (cfg c0 s i).voters ∧
+      ∀ k, s.applied i < k → k ≤ (s.base.nodes i).commit → confAt (s.base.nodes i).log k = false) := by
+  unfold campaignGate pendingFlags
+  simp only [Bool.and_eq_true, Bool.not_eq_true', decide_eq_false_iff_not, decide_eq_true_eq, List.any_eq_false, List.mem_map,
+    List.mem_range]
+  constructor
+  · rintro ⟨⟨h1, h2⟩, h3⟩
+    refine ⟨h1, h2, fun k hk1 hk2 => ?_⟩
+    cases hc : confAt (s.base.nodes i).log k with
+    | false => rfl
+    | true =>
+      exact absurd rfl (h3 true ⟨k - s.applied i - 1, by omega, by rw [show s.applied i + (k - s.applied i - 1) + 1 = k by omega]; exact hc⟩)
+  · rintro ⟨h1, h2, h3⟩
+    refine ⟨⟨h1, h2⟩, ?_⟩
+    rintro b ⟨d, hd, rfl⟩
+    rw [h3 _ (by omega) (by omega)]; simp
+
+#print axioms campaignGate_iff
 
 #print axioms C15_conf_holds
 #print axioms conf_election_safety
